@@ -134,3 +134,98 @@ func VerifC02ReaderRace(h *verifh.H) {
 	h.Assert(vJoin(seen) == want, "a reader following its tokens sees every change exactly once, whatever is written meanwhile :: saw="+vJoin(seen)+" feed="+want)
 	h.Observe("n", len(seen))
 }
+
+// VerifC02Rename: the change feed of a dataset across renames. Two datasets
+// (p, q) with one change each; then a history of writes (to the dataset
+// currently known under a name) and renames among the names {p, q, r},
+// including a rename onto a name another dataset used before (swap, forth and
+// back). After every operation each dataset's feed from the start is exactly
+// the changes written to THAT dataset, in write order, each once; a token
+// taken at the end before a write returns exactly the new entry after it; and
+// paging with limit 1 yields the same sequence.
+func VerifC02Rename(h *verifh.H) {
+	hub := VerifNewHub(h)
+	names := []string{"p", "q", "r"}
+	type mds struct {
+		feed   []string
+		latest map[string]string
+	}
+	model := map[string]*mds{}
+	mk := func(id, v string) *Entity {
+		e := NewEntity(id, 0)
+		e.Properties["ns0:v"] = v
+		return e
+	}
+	write := func(name, id, v string) {
+		ds := hub.Dsm.GetDataset(name)
+		m := model[name]
+		before, err := ds.GetChanges(0, 0, false)
+		h.Assert(err == nil, "feed readable")
+		h.Assert(ds.StoreEntities([]*Entity{mk(id, v)}) == nil, "write accepted")
+		var fresh []string
+		if m.latest[id] != v {
+			m.latest[id] = v
+			fresh = []string{vRenderEntity(mk(id, v))}
+			m.feed = append(m.feed, fresh...)
+		}
+		after, err := ds.GetChanges(before.NextToken, 0, false)
+		h.Assert(err == nil, "feed readable from the end token")
+		h.Assert(vJoin(vRenderList(after.Entities)) == vJoin(fresh), "a token taken at the end returns exactly the entries written since :: ds="+name+" got="+vJoin(vRenderList(after.Entities))+" want="+vJoin(fresh))
+	}
+	for k, n := range names[:2] {
+		_, err := hub.Dsm.CreateDataset(n, nil)
+		h.Assert(err == nil, "create")
+		model[n] = &mds{latest: map[string]string{}}
+		write(n, "ns0:e1", []string{"x", "y"}[k])
+	}
+	check := func(when string) {
+		for _, n := range names {
+			m, ok := model[n]
+			h.Assert(hub.Dsm.IsDataset(n) == ok, "a dataset is known exactly under its current name :: "+n+" "+when)
+			if !ok {
+				continue
+			}
+			ds := hub.Dsm.GetDataset(n)
+			all, err := ds.GetChanges(0, 0, false)
+			h.Assert(err == nil, "feed readable")
+			h.Assert(vJoin(vRenderList(all.Entities)) == vJoin(m.feed), "the feed is exactly the changes written to this dataset, in write order :: ds="+n+" "+when+" got="+vJoin(vRenderList(all.Entities))+" want="+vJoin(m.feed))
+			var paged []string
+			tok := uint64(0)
+			for page := 0; page < 8; page++ {
+				pg, err := ds.GetChanges(tok, 1, false)
+				h.Assert(err == nil, "page readable")
+				if err != nil || len(pg.Entities) == 0 {
+					break
+				}
+				paged = append(paged, vRenderList(pg.Entities)...)
+				tok = pg.NextToken
+			}
+			h.Assert(vJoin(paged) == vJoin(m.feed), "paging with limit 1 yields the same sequence :: ds="+n+" "+when+" paged="+vJoin(paged)+" want="+vJoin(m.feed))
+		}
+	}
+	nops := h.Param("ops", 3)
+	for k := 0; k < nops; k++ {
+		when := "after op " + itoa(k)
+		if h.Choice("op", 2) == 0 {
+			n := names[h.Choice("name", 3)]
+			if model[n] == nil {
+				h.Assume(false)
+				return
+			}
+			write(n, []string{"ns0:e1", "ns0:e2"}[h.Choice("id", 2)], "w"+itoa(k))
+		} else {
+			from := names[h.Choice("from", 3)]
+			to := names[h.Choice("to", 3)]
+			if model[from] == nil || model[to] != nil {
+				h.Assume(false)
+				return
+			}
+			_, err := hub.Dsm.UpdateDataset(from, &UpdateDatasetConfig{ID: to})
+			h.Assert(err == nil, "rename accepted")
+			model[to] = model[from]
+			delete(model, from)
+		}
+		check(when)
+	}
+	h.Observe("ops", nops)
+}
